@@ -36,6 +36,13 @@ Definition src_put (src : list entry) (m : N) (ds k v : N) (del : bool) : list e
   if maxv src <? m then src ++ [{| e_ver := m; e_ds := ds; e_id := k; e_val := v; e_del := del |}]
   else src.
 
+(** Deleting a dataset (DsManager.DeleteDataset) is a commit like any other - the dataset record is
+    deleted in Badger (a delete marker), the deleted-datasets set and the core.Dataset entity are
+    rewritten.  It is the entry [OWrite m ds drop_id 0 true]: the entities of the dataset written
+    before it are no longer listed, a later write re-creates the dataset (new internal id) and only
+    lists what is written after it ([visible]). *)
+Definition drop_id : N := 1000.
+
 (** dataset number used for the entries that are not hub data (sequence leases) *)
 Definition sys_ds : N := 1000.
 
@@ -62,6 +69,16 @@ Fixpoint latest (ds k : N) (l : list entry) : option entry :=
       | None => Some e
       end
     else r
+  end.
+
+(** what the hub lists for (ds, k): the latest entry, unless the dataset was deleted after it *)
+Definition visible (ds k : N) (l : list entry) : option entry :=
+  match latest ds k l with
+  | Some e => match latest ds drop_id l with
+              | Some d => if e_ver d <? e_ver e then Some e else None
+              | None => Some e
+              end
+  | None => None
   end.
 
 (** ** 2. The backup location as a map  file name -> content, with open modes *)
